@@ -361,6 +361,7 @@ def cmp_lin(op, a: Lin, b: Lin) -> B:
     return r
 
 
+_LIST_MUTATORS = {"append", "extend", "insert", "pop", "remove", "clear", "sort", "reverse"}
 _CMP = {ast.Eq: "==", ast.NotEq: "!=", ast.Lt: "<", ast.LtE: "<=", ast.Gt: ">", ast.GtE: ">="}
 
 
@@ -1071,6 +1072,19 @@ class SymExec:
             return Enum(args[0], args[1] if len(args) > 1 else kwargs.get("start", Lin.const(0)))
         if name == "range":
             return Range(args)
+        # in-place mutation of a literal list bound to a name/attribute
+        if isinstance(n.func, ast.Attribute) and n.func.attr in _LIST_MUTATORS and isinstance(n.func.value, ast.Name | ast.Attribute):
+            recv = self.eval(n.func.value, st, func, depth)
+            if isinstance(recv, Tup) and recv.kind == "list":
+                if n.func.attr == "append" and len(args) == 1:
+                    new = Tup(recv.items + [args[0]], "list")
+                elif n.func.attr == "extend" and len(args) == 1 and isinstance(args[0], Tup):
+                    new = Tup(recv.items + args[0].items, "list")
+                else:
+                    new = Sym(st.new_name(norm(n.func.value)))
+                self.assign(n.func.value, new, st, func, depth)
+                st.effects.append(("list-mut", n, (norm(n.func.value), n.func.attr, args)))
+                return Const(None)
         # repo callee
         targets, ext, precise = self.resolve(n, st, func, fval)
         if len(targets) >= 1 and isinstance(self._callee_class(n, st, func), Class):
